@@ -13,13 +13,16 @@ def _causes(h):
 
 
 def cause_of(h, seq, tid=None):
-    c = [a for (b, e, a) in _causes(h) if b < seq < e]
-    if len(c) == 1:
-        return c[0]['action']
-    if len(c) > 1:
-        names = sorted({a['action'] for a in c})
-        return 'race(' + '+'.join(names) + ')'
-    return 'engine'
+    """name of the client action that was executing when record `seq` was written ('engine' if none).
+    Actions of one process run one after another (process lock): among the actions whose call/return interval
+    contains seq, the one that returns first is the one that was running"""
+    a = closing_action(h, seq)
+    return a['action'] if a else 'engine'
+
+
+def closing_action(h, seq):
+    c = [a for a in h.actions if a['call'] < seq < a['seq']]
+    return min(c, key=lambda a: a['seq']) if c else None
 
 
 def walk_nodes(wf):
@@ -169,11 +172,6 @@ def why_open(h, sc, facts, k, closer=None):
         if ak == 'step' and an.get('acts') and an.get('branches'):
             return 'mixed-step'
     return 'other'
-
-
-def closing_action(h, seq):
-    c = [a for a in h.actions if a['call'] < seq < a['seq']]
-    return c[0] if len(c) == 1 else None
 
 
 def mon_c03(h, sc, obs):
